@@ -193,7 +193,7 @@ def gen_widths(ck, r):
         add("oidcopy %d %s" % (n, hx(oid_octets(n))), "oidcopy")
         if n in W8 or n in W16:
             add("oidcopy %d %s" % (n, hx(oid_octets(n, True))), "oidcopy-badlast")
-            if n: add("oidcopy %d %s" % (n, hx(oid_octets(n - 1))), "oidcopy-short")
+            if n > 1: add("oidcopy %d %s" % (n, hx(oid_octets(n - 1))), "oidcopy-short")
     # OBJECT IDENTIFIER / AlgorithmIdentifier / INTEGER / ENUMERATED / generic TLV headers with such content lengths
     for n in W8 + W16:
         ob = oid_octets(n)
@@ -232,10 +232,12 @@ def gen_widths(ck, r):
         add("dn " + hx(der.name(*[der.attr(r.choice(["ou", "dc", "cn", "o", "c", "st", "serial", "dnq"]), "v%d" % i) for i in range(k)])), "dn-count")
         add("dn " + hx(der.name(*[der.attr("ou", "v%d" % i) for i in range(k)])), "dn-count")
     # base64: psSize_t input length and output capacity at 2^16
-    for n in (65532, 65533, 65534, 65535, 65536, 65537, 65540):
-        t = (b"QUJD" * (n // 4 + 1))[:n]
-        for cap in (n * 3 // 4 & 0xFFFF, 65535, 49152, 0):
-            add("b64 %d %s" % (cap, hx(t)), "b64-64k")
+    # (the text is mostly skipped characters: the extracted model recurses once per decoded character)
+    for n in ((65535, 65536, 65540) if ck.tier == "quick" else (65531, 65532, 65535, 65536, 65537, 65540, 65544)):
+        for head, tail in ((b"QUJDREVG", b"R0hJSg=="), (b"", b"QQ==")):
+            t = head + b"\n" * (n - len(head) - len(tail)) + tail
+            for cap in (65535, 9, 0):
+                add("b64 %d %s" % (cap, hx(t)), "b64-64k")
     return cases
 
 
@@ -689,17 +691,24 @@ def run(ck):
                     "capacity variations; PEM frames with label/END/NUL/CRLF/encryption-header variations; whole parsers: ASN.1-aware mutations (14 operators) of every /repo/testkeys credential. "
                     "Integer-width boundaries: every length-consuming routine (asnCopyOid 0..600 and 2^16+k into a guarded 32-byte block, OID/INTEGER/SEQUENCE/SET headers, GeneralName and otherName type-id, DN value / attribute-type OID / attribute count, base64 length) is driven with lengths 0..35, 250..291, 508..545, 2^16-2..2^16+256 whose octets are really present; whole certificates: every leaf of a certificate carrying every parsed extension kind is resized, with all enclosing lengths re-encoded consistently, to 29..33, 126..129, 253..259, 283..289, 510..514, 540..544, 1023..1025, 4095..4097 octets (OIDs: each length), CRL leaves also to 2^16+k. "
                     "A modelled case is non-trivial when the library accepts it")
-    # ---- modelled functions: model vs sanitizer build (authoritative) and vs plain build
-    t1 = time.time()
-    rc, model, _ = ck.run_lines(drv, mcases)
-    model = gn_postprocess(mcases, model)
-    ck.log("model: %d cases in %.1fs" % (len(mcases), time.time() - t1))
-    t1 = time.time()
-    impl_a, faults_a = run_faulting(ck, ha, mcases, env=ASAN_ENV, label="asan/modelled")
-    ck.log("asan harness: %d modelled cases in %.1fs, %d faults" % (len(mcases), time.time() - t1, len(faults_a)))
+    # ---- modelled functions: model vs sanitizer build (authoritative) and vs plain build (run concurrently)
+    res = {}
+    def run_model():
+        t1 = time.time()
+        rc, m, _ = ck.run_lines(drv, mcases)
+        res["model"] = gn_postprocess(mcases, m)
+        ck.log("model: %d cases in %.1fs" % (len(mcases), time.time() - t1))
+    def run_asan():
+        t1 = time.time()
+        res["asan"] = run_faulting(ck, ha, mcases, env=ASAN_ENV, label="asan/modelled")
+        ck.log("asan harness: %d modelled cases in %.1fs, %d faults" % (len(mcases), time.time() - t1, len(res["asan"][1])))
+    th = [threading.Thread(target=run_model), threading.Thread(target=run_asan)]
+    for t in th: t.start()
     t1 = time.time()
     impl_p, faults_p = run_faulting(ck, hp, mcases, label="plain/modelled")
     ck.log("plain harness: %d modelled cases in %.1fs" % (len(mcases), time.time() - t1))
+    for t in th: t.join()
+    model = res["model"]; impl_a, faults_a = res["asan"]
     for m in model:
         ck.count("model:" + ("FAULT" if m == "FAULT" else "leftover" if m.startswith("LEFTOVER") else "accept" if (m.startswith("ok") or m.startswith("rc=0") or m.startswith("rc=65533") or m.startswith("len=")) else "reject"))
     dis = compare(ck, "AsnModel vs h_asn (ASan+UBSan build): result tuple, FAULT <-> sanitizer abort", mcases, impl_a, model, True)
@@ -708,6 +717,10 @@ def run(ck):
     for idx, summ in faults_a:
         c = mcases[idx]
         op = c.split(" ", 1)[0]
+        if op == "oidcopy" and idx < len(model) and model[idx] == "FAULT":
+            # asnCopyOid(der, derlen, ..) called with fewer than derlen octets behind der: outside the caller's
+            # contract (c09_oid_copy_bounded assumes p + derlen <= limit); the fault only has to coincide with the model's
+            continue
         if op == "taglen":
             # getAsnTagLenUnsafe has no length argument: it is safe only under its call-site contract
             # (c09_taglen_unsafe_partial); outside it the fault must merely coincide with the model's Fault
@@ -730,7 +743,7 @@ def run(ck):
                               {"harness": "h_asn", "case": c[:4000], "observed": o[:600], "expected_by_spec": "every attribute T1"})
     # ---- whole parsers: exploration under the sanitizers + consistency walker
     wcorp = [c for c in corp if not is_model_case(c)]
-    wcases, meta = gen_whole(ck, ck.rng("whole"), seeds, ck.budget(5000, 120000))
+    wcases, meta = gen_whole(ck, ck.rng("whole"), seeds, ck.budget(7500, 120000))
     wcases = wcorp + wcases; meta = [(c.split(" ", 1)[0], "corpus", "corpus")] * len(wcorp) + meta
     t1 = time.time()
     wout, wfaults = run_faulting(ck, ha, wcases, env=ASAN_ENV, label="asan/whole")
